@@ -733,12 +733,77 @@ HAS_TOTAL_EPISODES = ["nature_dqn", "ddqn", "per", "ddpg", "td3", "sac", "td7", 
 TABULAR = ["q_learning", "sarsa", "double_q_learning", "monte_carlo", "dynaq"]
 
 
+# documented options next to their defaults (valid values per the docstrings);
+# workloads draw from these so that non-default code paths are exercised too
+OPTIONS = {
+    "sac": {"autotune": [True, False], "policy_delay": [1, 2, 3],
+            "target_network_delay": [1, 2]},
+    "reinforce": {"train_after_episode": [False, True],
+                  "policy_gradient_steps": [1, 2], "value_gradient_steps": [1, 2]},
+    "actor_critic": {"train_after_episode": [False, True],
+                     "policy_gradient_steps": [1, 2], "value_gradient_steps": [1, 2]},
+    "a2c": {"policy_gradient_steps": [1, 2], "value_gradient_steps": [1, 2],
+            "gae_lambda": [0.0, 0.95, 1.0]},
+    "ppo": {"epochs": [1, 2]},
+    "pets": {"init_with_previous_plan": [True, False]},
+    "dynaq": {"n_planning_steps": [0, 2, 4]},
+    "mrq": {"normalize_targets": [True, False]},
+    "ddpg": {"gradient_steps": [1, 2]},
+    "td3": {"gradient_steps": [1, 2], "policy_delay": [1, 2, 3]},
+    "td3_lap": {"gradient_steps": [1, 2], "policy_delay": [1, 2, 3]},
+    "td7": {"policy_delay": [1, 2, 3]},
+    "cmaes": {"active": [False, True]},
+}
+
+
+def random_options(name, rng):
+    return {k: (v[int(rng.integers(len(v)))]) for k, v in OPTIONS.get(name, {}).items()}
+
+
+def prefill_buffer(run, n):
+    """A buffer that already holds data from elsewhere (e.g. an earlier run):
+    n synthetic transitions go in through the real class, unrecorded."""
+    buf = run.buffer
+    base = type(buf).__mro__[1]
+    env = run.env if run.env is not None else run.envs[0]
+    rng = np.random.default_rng(4242)
+    for i in range(n):
+        obs = np.asarray(env.observation_space.sample() if False else
+                         [7.0, 900.0 + i // 5, float(i % 5)], dtype=np.float32)
+        nobs = np.asarray([7.0, 900.0 + i // 5, float(i % 5 + 1)], dtype=np.float32)
+        sp = env.action_space
+        if hasattr(sp, "n"):
+            act = int(rng.integers(sp.n))
+        else:
+            act = rng.uniform(sp.low, sp.high).astype(np.float32)
+        end = i % 5 == 4
+        sample = dict(observation=obs, action=act, reward=float(rng.normal()),
+                      next_observation=nobs)
+        if "terminated" in buf.buffer:
+            sample.update(terminated=end, truncated=False)
+        else:
+            sample.update(termination=end)
+        base.add_sample(buf, **sample)
+
+
 def make_run(name, cfg, trace=None):
+    import inspect
+
     from vf.loop import Trace
 
     trace = trace or Trace()
     trace.copy_leaves = cfg.get("copy_leaves", True)
     trace.snap_enabled = cfg.get("snapshots", True)
+    options = cfg.get("options") or {}
+    if options:
+        cfg = {**cfg, **options}
     run = Run(name, trace, cfg)
     BUILDERS[name](run)
+    if cfg.get("prefill"):
+        prefill_buffer(run, int(cfg["prefill"]))
+    if options and run.fn is not None:
+        params = inspect.signature(getattr(run.fn, "__wrapped__", run.fn)).parameters
+        for k, v in options.items():
+            if k in params:
+                run.kwargs[k] = v
     return run
